@@ -342,6 +342,15 @@ class FilesystemLayout(_BaseLayout[_MaildirT]):
 
     """
 
+    @classmethod
+    def _split(cls, name: str, delimiter: str) -> _Parts:
+        parts = super()._split(name, delimiter)
+        for part in parts:
+            if part in ('new', 'cur', 'tmp'):
+                # the maildir's own directories, not mailboxes
+                raise ValueError(name)
+        return parts
+
     def _get_path(self, parts: _Parts) -> str:
         return os.path.join(self._path, *parts)
 
